@@ -124,6 +124,68 @@ def violation(prop, klass, detail, signature=None):
     }
 
 
+def in_child(fn, *args):
+    """Run fn(*args) in a forked child and return its result.  The calling
+    process never executes code of the tree under test itself, so every child
+    starts from a pristine import of pyrtcm: state that the library leaks from
+    one reader / wrapper / message object to the next cannot make a run depend
+    on which worker happened to execute what before."""
+    import pickle
+    import struct
+
+    r, w = os.pipe()
+    pid = os.fork()
+    if pid == 0:
+        code = 1
+        try:
+            os.close(r)
+            try:
+                data = pickle.dumps(("ok", fn(*args)))
+            except HarnessError as e:
+                data = pickle.dumps(("harness-error", str(e)))
+            except BaseException as e:  # pylint: disable=broad-except
+                data = pickle.dumps(("child-error", "".join(traceback.format_exception(type(e), e, e.__traceback__))[-2000:]))
+            os.write(w, struct.pack("<Q", len(data)))
+            off = 0
+            while off < len(data):
+                off += os.write(w, data[off : off + 65536])
+            code = 0
+        finally:
+            os._exit(code)
+    os.close(w)
+    chunks = []
+    while True:
+        chunk = os.read(r, 1 << 16)
+        if not chunk:
+            break
+        chunks.append(chunk)
+    os.close(r)
+    _, status = os.waitpid(pid, 0)
+    buf = b"".join(chunks)
+    if len(buf) < 8 or len(buf) - 8 != struct.unpack("<Q", buf[:8])[0]:
+        raise HarnessError(f"child process died without a result (wait status {status}, {len(buf)} bytes received)")
+    tag, res = pickle.loads(buf[8:])
+    if tag == "harness-error":
+        raise HarnessError(res)
+    if tag == "child-error":
+        raise HarnessError("child process failed: " + res)
+    return res
+
+
+def _exec_seq(mod, scns):
+    """execute scenarios in order (in this process); outcome of each"""
+    outs = []
+    for scn in scns:
+        out = mod.execute(scn)
+        outs.append({"digest": out["digest"], "violation": out["violation"], "explicit": out.get("explicit")})
+    return outs
+
+
+def exec_isolated(mod, scns):
+    """execute a history of scenarios in one pristine child"""
+    return in_child(_exec_seq, mod, scns)
+
+
 class _Prop:
     """property module whose execute() always runs on a fresh thread stack, so
     that stack-depth dependent behaviour of the code under test (RecursionError)
@@ -189,6 +251,12 @@ def _worker_init(prop, watchdog):
 
 
 def _run_block(args):
+    """a block of runs = one history, executed in a child forked from the
+    (pristine) pool worker: the block is a pure function of (seed, start, count)"""
+    return in_child(_run_block_here, args)
+
+
+def _run_block_here(args):
     prop, master, tier, start, count = args
     mod = _WORKER["mod"]
     faulthandler.dump_traceback_later(_WORKER["watchdog"], exit=True)
@@ -299,19 +367,58 @@ def _same_class(out, klass):
     return out["violation"] is not None and out["violation"]["class"] == klass
 
 
-def minimise(mod, scn, klass, budget_s=90.0, max_execs=4000):
-    """scn: explicit scenario that fails with class klass.  Returns a smaller
-    explicit scenario failing with the same class."""
+def minimise_history(mod, history, scn, klass, budget_s=120.0):
+    """ddmin over the scenarios executed *before* scn in the same process"""
+    t0 = time.time()
+    execs = 0
+
+    def fails(hist):
+        nonlocal execs
+        if time.time() - t0 > budget_s:
+            return False
+        execs += 1
+        try:
+            outs = exec_isolated(mod, hist + [scn])
+        except HarnessError:
+            return False
+        return _same_class(outs[-1], klass)
+
+    lst = list(history)
+    n = 2
+    while len(lst) >= 1:
+        chunk = max(1, len(lst) // n)
+        removed = False
+        i = 0
+        while i < len(lst):
+            cand = lst[:i] + lst[i + chunk :]
+            if fails(cand):
+                lst = cand
+                removed = True
+            else:
+                i += chunk
+        if chunk == 1:
+            break
+        n = max(2, n - 1) if removed else min(len(lst), n * 2)
+        if time.time() - t0 > budget_s:
+            break
+    return lst, execs
+
+
+def minimise(mod, scn, klass, budget_s=90.0, max_execs=4000, history=()):
+    """scn: explicit scenario that fails with class klass (after `history`
+    has been executed in the same process).  Returns a smaller explicit scenario
+    failing with the same class.  Every candidate runs in a pristine child."""
     t0 = time.time()
     execs = [0]
+    history = list(history)
 
     def fails(cand):
         if time.time() - t0 > budget_s or execs[0] >= max_execs:
             return False
         execs[0] += 1
         try:
-            out = mod.execute(cand)
-        except Exception:  # a candidate that breaks the harness is not smaller
+            out = exec_isolated(mod, history + [cand])[-1]
+        except HarnessError:  # a candidate that breaks the harness is not smaller
             return False
         return _same_class(out, klass)
 
@@ -465,7 +572,7 @@ def run_check(prop, tier, master, workers, runs_override=None, write=True):
     # extra systematic part (enumerations), if the property has one
     extra = {}
     if hasattr(mod, "systematic"):
-        ex = mod.systematic(tier, master, workers)
+        ex = in_child(mod.systematic, tier, master, workers)
         extra = ex.get("coverage", {})
         all_viol.extend(ex.get("violations", []))
 
@@ -517,7 +624,7 @@ def run_check(prop, tier, master, workers, runs_override=None, write=True):
     if new_viol:
         new_viol.sort(key=lambda t: (t[0] if isinstance(t[0], int) else 1 << 60))
         index, v = new_viol[0]
-        path = report_violation(mod, prop, master, tier, index, v)
+        path = report_violation(mod, prop, master, tier, index, v, block)
         ev["coverage"]["first_violation"] = {"run": index, "class": v["class"], "detail": v["detail"][:400], "replay": path}
         print(f"VIOLATION property={prop} replay={path}")
         print(f"  class={v['class']} run={index} seed={master} detail={v['detail'][:300]}")
@@ -536,26 +643,40 @@ def run_check(prop, tier, master, workers, runs_override=None, write=True):
     return rc
 
 
-def report_violation(mod, prop, master, tier, index, v):
+def report_violation(mod, prop, master, tier, index, v, block=0):
     """regenerate, make explicit, minimise, verify replay determinism, write
-    the replay file.  Returns its path."""
+    the replay file.  Returns its path.  If the run fails only after the runs
+    that preceded it in its block (state leaked between objects), the replay
+    file carries that history, minimised."""
     os.makedirs(os.path.join(VERIF, "replays"), exist_ok=True)
+    klass = v["class"]
+    history = []
     if isinstance(index, int):
-        scn = mod.generate(master, index, tier)
-        out = mod.execute(scn)
-        if out["violation"] is None or out["violation"]["class"] != v["class"]:
-            raise HarnessError(f"nondeterministic: run {index} did not reproduce {v['class']} on regeneration")
-        explicit = out["explicit"]
+        out = exec_isolated(mod, [mod.generate(master, index, tier)])[0]
+        if _same_class(out, klass):
+            explicit = out["explicit"]
+        else:
+            # not reproducible alone: replay the block's history up to this run
+            start = (index // block) * block if block else 0
+            scns = [mod.generate(master, j, tier) for j in range(start, index + 1)]
+            outs = exec_isolated(mod, scns)
+            if not _same_class(outs[-1], klass):
+                raise HarnessError(f"nondeterministic: run {index} reproduces {klass} neither alone nor after runs {start}..{index - 1}")
+            explicit = outs[-1]["explicit"]
+            history = [o["explicit"] for o in outs[:-1]]
     else:
         explicit = v["explicit"]  # systematic part hands over its own scenario
-    klass = v["class"]
-    out2 = mod.execute(explicit)
+    out2 = exec_isolated(mod, history + [explicit])[-1]
     if not _same_class(out2, klass):
         raise HarnessError(f"nondeterministic: explicit scenario of run {index} does not reproduce {klass}")
-    small, nexec = minimise(mod, explicit, klass)
-    out3 = mod.execute(small)
+    nexec = 0
+    if history:
+        history, nexec = minimise_history(mod, history, explicit, klass)
+    small, n2 = minimise(mod, explicit, klass, history=history)
+    nexec += n2
+    out3 = exec_isolated(mod, history + [small])[-1]
     if not _same_class(out3, klass):
-        small, out3 = explicit, out2
+        small, out3 = explicit, exec_isolated(mod, history + [explicit])[-1]
     name = f"{prop}-s{master}-r{index}.json"
     path = os.path.join(VERIF, "replays", name)
     doc = {
@@ -569,6 +690,8 @@ def report_violation(mod, prop, master, tier, index, v):
         "detail": out3["violation"]["detail"],
         "event_log_digest": out3["digest"],
         "minimise_execs": nexec,
+        "history": history,
+        "history_note": "scenarios executed earlier in the same process; the violation needs them (state leaks across objects)" if history else "none needed: the scenario fails on its own in a fresh process",
         "scenario": small,
     }
     with open(path, "w") as f:
@@ -581,7 +704,7 @@ def report_violation(mod, prop, master, tier, index, v):
         [sys.executable, os.path.join(VERIF, "check"), prop, "--replay", path, "--quiet"],
         capture_output=True,
         text=True,
-        timeout=300,
+        timeout=600,
         env=dict(os.environ, PYTHONHASHSEED="12345"),
     )
     if r.returncode != 1 or f"REPLAYED class={klass} digest={out3['digest']}" not in r.stdout:
@@ -595,6 +718,8 @@ def replay(prop, path, quiet=False):
     with open(path) as f:
         doc = json.load(f)
     mod = load_prop(prop)
+    for h in doc.get("history", []):
+        mod.execute(h)
     out = mod.execute(doc["scenario"])
     v = out["violation"]
     if v is None:
